@@ -25,7 +25,7 @@ func init() {
 				n = 25000
 			}
 			return fw.Meta{N: n, Level: "exploration", Chunk: 5, CaseTimeoutS: 240, MinNT: 80,
-				Rule:        "one case = one lineage: 3..8 tables built through forced rotations with controlled size classes (tiny / ~1 KiB / ~4 KiB) and tombstone ratios (0 / some / mostly), including tombstones in newer tables over values in older, larger ones and overwrites across tables; compaction settings (max size {1,300,1000,3000,huge} x ratio {0,0.2,0.5,1} x threshold {0,1,2}) redrawn at every reopen so that prefix / suffix / middle-run / everything / nothing selections occur; around EVERY compaction cycle all keys are read before and after (must be identical and equal to the model), the returned selection must be a contiguous run of the live tables in age order with the replacement path = its oldest member, and the live list afterwards must be the old list with that run collapsed; then more writes, cycles and reopens. Non-trivial: a cycle merged >=2 tables while excluding the oldest live table, or merged tables holding tombstones; distinct by lineage hash",
+				Rule:        "one case = one lineage: 3..8 tables built through forced rotations with controlled size classes (tiny / ~1 KiB / ~4 KiB) and tombstone ratios (0 / some / mostly), including tombstones in newer tables over values in older, larger ones and overwrites across tables; compaction settings (max size {1,300,1000,3000,huge} x ratio {0,0.2,0.5,1} x threshold {0,1,2}) redrawn at every reopen so that prefix / suffix / middle-run / everything / nothing selections occur; around EVERY compaction cycle all keys are read before and after (must be identical and equal to the model), the returned selection must be a contiguous run of the live tables in age order and the live list afterwards must be the old list with that run collapsed into one table in place; then more writes, cycles and reopens. Non-trivial: a cycle merged >=2 tables while excluding the oldest live table, or merged tables holding tombstones; distinct by lineage hash",
 				MinObs:      map[string]int64{"cycles_checked": 800, "cycles_that_merged": 300, "cycles_excluding_oldest": 30, "cycles_selecting_middle_run": 8, "tombstone_shadowing_older_value": 300, "reads_compared": 30000, "reopens": 200},
 				Assumptions: []string{"only the gap-free-run requirement of the selection is judged, not the selection policy itself"},
 			}
@@ -234,13 +234,22 @@ func runC06(c *fw.Case) {
 				c.Violate("compaction/selection-not-a-gap-free-run", "selected %v out of live tables %v (age order)\n%s", sel, bnames, ctx())
 				return false
 			}
-			if md.ReplacementPath != sel[0] {
-				c.Violate("compaction/replacement-not-oldest-of-run", "replacement path %s, oldest selected table %s\n%s", md.ReplacementPath, sel[0], ctx())
-				return false
+			if md.ReplacementPath == sel[0] {
+				c.Obs("replacement_is_oldest_of_run", 1)
 			}
-			want := append(append(append([]string{}, bnames[:start]...), sel[0]), bnames[start+len(sel):]...)
-			if strings.Join(anames, ",") != strings.Join(want, ",") {
-				c.Violate("compaction/live-list-mismatch", "live tables after the cycle %v, expected %v (run %v collapsed into %s)\n%s", anames, want, sel, sel[0], ctx())
+			// the run must have collapsed into ONE table that sits where the run was; the tables outside the run keep
+			// their names and order (how the merged table is named is the implementation's business)
+			okList := len(anames) == len(bnames)-len(sel)+1
+			if okList {
+				for i := 0; i < start; i++ {
+					okList = okList && anames[i] == bnames[i]
+				}
+				for i := start + len(sel); i < len(bnames); i++ {
+					okList = okList && anames[i-len(sel)+1] == bnames[i]
+				}
+			}
+			if !okList {
+				c.Violate("compaction/live-list-mismatch", "live tables after the cycle %v; expected %v with the run %v collapsed into one table in place\n%s", anames, bnames, sel, ctx())
 				return false
 			}
 			c.Obs("cycles_that_merged", 1)
